@@ -401,6 +401,77 @@ type c16Tree struct {
 	BaseSchema int      `json:"base_schema"`
 	BaseRes    []c16Res `json:"base_res"`
 	Patches    []string `json:"patches"` // names of resources (Deployment / Foo / Bar) that get a strategic-merge patch
+	// custom transformer configuration (`configurations:` file): extra field specs for a CRD kind plus the
+	// directive that uses them; only used by the concurrent rounds (C16 race driver)
+	Cfg []c16CfgSpec `json:"cfg,omitempty"`
+}
+
+// c16CfgSpec: one custom field spec `{kind: Kind, path: spec/<Field>}` of directive Dir
+// (namespace | labels | annotations | prefix | suffix | images | replicas).
+type c16CfgSpec struct {
+	Dir   string `json:"dir"`
+	Kind  string `json:"kind"`
+	Field string `json:"field"`
+}
+
+var c16CfgKey = map[string]string{"namespace": "namespace", "labels": "commonLabels", "annotations": "commonAnnotations",
+	"prefix": "namePrefix", "suffix": "nameSuffix", "images": "images", "replicas": "replicas"}
+
+func (t *c16Tree) hasCfg(dir string) bool {
+	for _, c := range t.Cfg {
+		if c.Dir == dir {
+			return true
+		}
+	}
+	return false
+}
+
+// cfgYaml renders the `configurations:` file.
+func (t *c16Tree) cfgYaml() string {
+	var b strings.Builder
+	for _, dir := range []string{"namespace", "labels", "annotations", "prefix", "suffix", "images", "replicas"} {
+		first := true
+		for _, c := range t.Cfg {
+			if c.Dir != dir {
+				continue
+			}
+			if first {
+				b.WriteString(c16CfgKey[dir] + ":\n")
+				first = false
+			}
+			fmt.Fprintf(&b, "- path: %s/%s\n  kind: %s\n", c16CfgRoot(c.Kind), c.Field, c.Kind)
+			switch dir {
+			case "namespace", "labels", "annotations", "replicas":
+				b.WriteString("  create: true\n")
+			}
+		}
+	}
+	return b.String()
+}
+
+// the map under which the custom field specs of a kind point
+func c16CfgRoot(kind string) string {
+	if kind == "ConfigMap" {
+		return "data"
+	}
+	return "spec"
+}
+
+// resYaml: the resource plus the scalar fields the custom prefix / suffix / image specs of the tree point at.
+func (t *c16Tree) resYaml(r c16Res) string {
+	y := c16ResYaml(r)
+	for _, c := range t.Cfg {
+		if c.Kind != r.Kind {
+			continue
+		}
+		switch c.Dir {
+		case "prefix", "suffix":
+			y += fmt.Sprintf("  %s: nm\n", c.Field)
+		case "images":
+			y += fmt.Sprintf("  %s: nginx:1.0\n", c.Field)
+		}
+	}
+	return y
 }
 
 func c16ResYaml(r c16Res) string {
@@ -480,6 +551,40 @@ func (t *c16Tree) fs(schemas []c16Schema) filesys.FileSystem {
 		k.WriteString("namespace: ns1\n")
 	}
 	k.WriteString(c16Field(t.Ver, t.Schema >= 0, "s.json"))
+	if len(t.Cfg) > 0 {
+		k.WriteString("configurations:\n- cfg.yaml\n")
+		_ = fs.WriteFile("/t/cfg.yaml", []byte(t.cfgYaml()))
+		if t.hasCfg("labels") {
+			k.WriteString("commonLabels:\n  vl: x\n")
+		}
+		if t.hasCfg("annotations") {
+			k.WriteString("commonAnnotations:\n  va: yv\n")
+		}
+		if t.hasCfg("prefix") {
+			k.WriteString("namePrefix: p-\n")
+		}
+		if t.hasCfg("suffix") {
+			k.WriteString("nameSuffix: -s\n")
+		}
+		if t.hasCfg("images") {
+			k.WriteString("images:\n- name: nginx\n  newTag: \"9\"\n")
+		}
+		if t.hasCfg("replicas") {
+			k.WriteString("replicas:\n")
+			seen := map[string]bool{}
+			for _, c := range t.Cfg {
+				if c.Dir != "replicas" {
+					continue
+				}
+				for _, r := range t.allRes() {
+					if r.Kind == c.Kind && !seen[r.Name] {
+						seen[r.Name] = true
+						fmt.Fprintf(&k, "- name: %s\n  count: 7\n", r.Name)
+					}
+				}
+			}
+		}
+	}
 	if len(t.Patches) > 0 {
 		k.WriteString("patches:\n")
 		for i := range t.Patches {
@@ -492,7 +597,7 @@ func (t *c16Tree) fs(schemas []c16Schema) filesys.FileSystem {
 	}
 	docs := []string{}
 	for _, r := range t.Res {
-		docs = append(docs, c16ResYaml(r))
+		docs = append(docs, t.resYaml(r))
 	}
 	if len(docs) > 0 {
 		_ = fs.WriteFile("/t/r.yaml", []byte(strings.Join(docs, "---\n")))
@@ -511,7 +616,7 @@ func (t *c16Tree) fs(schemas []c16Schema) filesys.FileSystem {
 		}
 		docs := []string{}
 		for _, r := range t.BaseRes {
-			docs = append(docs, c16ResYaml(r))
+			docs = append(docs, t.resYaml(r))
 		}
 		_ = fs.WriteFile("/t/base/rb.yaml", []byte(strings.Join(docs, "---\n")))
 	}
